@@ -44,8 +44,12 @@ func parseOps(f []string) ([]op, error) {
 	var ops []op
 	for _, t := range f {
 		var o op
-		if _, err := fmt.Sscanf(t, "w%d.%d=%d", &o.sess, &o.node, &o.v); err == nil {
+		if _, err := fmt.Sscanf(t, "w%d.%d=N", &o.sess, &o.node); err == nil && strings.HasSuffix(t, "=N") {
+			o.kind, o.v = 'w', noneReq
+		} else if _, err := fmt.Sscanf(t, "w%d.%d=%d", &o.sess, &o.node, &o.v); err == nil {
 			o.kind = 'w'
+		} else if _, err := fmt.Sscanf(t, "n%d.%d", &o.sess, &o.node); err == nil {
+			o.kind = 'n'
 		} else if _, err := fmt.Sscanf(t, "a%d.%d", &o.sess, &o.node); err == nil {
 			o.kind = 'a'
 		} else if _, err := fmt.Sscanf(t, "r%d.%d", &o.sess, &o.node); err == nil {
